@@ -2,7 +2,4 @@ package c12
 
 import "verif/harness/hx"
 
-func genPrograms(c *hx.Ctx, w *world, n int) []Probe { return nil }
-func genNative(c *hx.Ctx, w *world, n int) []Probe   { return nil }
-func genEvm(c *hx.Ctx, w *world, n int) []Probe      { return nil }
-func runCorr(c *hx.Ctx, n int)                       {}
+func runCorr(c *hx.Ctx, n int) {}
